@@ -134,14 +134,12 @@ class ScriptedVisFn:
 
     def __init__(self, script=None, seed=0):
         self.script = list(script or [])
-        self.results = []
-        self.args = []
+        self.calls = []
         self.r = random.Random(seed)
 
     def __call__(self, grid, position, *, rng=None):
         import numpy as np
-        k = len(self.results)
-        self.args.append((copy.deepcopy(grid), position))
+        k = len(self.calls)
         if k < len(self.script):
             s = self.script[k]
             arr = np.array(s['values'], dtype=bool).reshape(tuple(s['shape']))
@@ -150,7 +148,7 @@ class ScriptedVisFn:
             if self.r.random() < 0.1:
                 h += 1
             arr = np.array([[self.r.random() < 0.6 for _ in range(w)] for _ in range(h)], dtype=bool).reshape((h, w))
-        self.results.append(arr)
+        self.calls.append({'args': [copy.deepcopy(grid), position], 'kwargs': {'rng': rng}, 'result': arr})
         return arr
 
 
@@ -200,6 +198,15 @@ def decode(j):
         return Observation(decode(j['Observation']['grid']), decode(j['Observation']['agent']))
     if 'Rng' in j:
         return ScriptedRng(j['Rng'])
+    if 'fn' in j:
+        ret = j['ret'] if isinstance(j['ret'], str) else tuple(j['ret'])
+        return ScriptedFn(ret, j['fn'], seed=len(json.dumps(j)) + j.get('salt', 0))
+    if 'object' in j:
+        import types
+        return types.SimpleNamespace(**{k: decode(v) for k, v in j['object'].items()})
+    if 'new' in j:
+        cls = resolve(j['new'])
+        return cls(*[decode(x) for x in j['args']], **{k: decode(v) for k, v in j.get('kwargs', {}).items()})
     if 'VisFn' in j:
         return ScriptedVisFn(j['VisFn'], seed=len(json.dumps(j)))
     if 'const' in j:
@@ -247,6 +254,13 @@ def rand_input(sort, r, ctx=None):
             return {'const': repr(sort[1])}
         if sort[0] == 'list':
             return [rand_input(sort[1], r) for _ in range(sort[2])]
+        if sort[0] == 'fn':
+            return {'fn': [], 'ret': sort[1], 'salt': r.randint(0, 10 ** 6)}
+        if sort[0] == 'object':
+            return {'object': {k: rand_input(v, r) for k, v in sort[1].items()}}
+        if sort[0] == 'new':
+            return {'new': sort[1], 'args': [rand_input(x, r) for x in sort[2]],
+                    'kwargs': {k: rand_input(v, r) for k, v in (sort[3] if len(sort) > 3 else {}).items()}}
     if sort == 'int':
         return r.randint(-6, 6)
     if sort == 'nat':
@@ -322,27 +336,82 @@ def find_contract(module, name):
     raise KeyError(name)
 
 
+class ScriptedFn:
+    """callable returning scripted values of a sort (then random ones); records its calls"""
+
+    def __init__(self, ret_sort, script=None, seed=0):
+        self.ret = ret_sort
+        self.script = list(script or [])
+        self.calls = []
+        self.r = random.Random(seed)
+
+    def __call__(self, *a, **k):
+        n = len(self.calls)
+        j = self.script[n] if n < len(self.script) else rand_input(self.ret, self.r)
+        v = decode(j)
+        self.calls.append({'args': list(a), 'kwargs': dict(k), 'result': v})
+        return v
+
+
+class StubToken:
+    def __init__(self, name, k):
+        self.name, self.k = name, k
+
+    def __repr__(self):
+        return f'<result {self.k} of {self.name}>'
+
+
+def install_stub(st, sname, ret=None, inputs_json=None):
+    """recording pass-through for a stubbed callee (the real callee still runs)"""
+    mod, qual = sname.split(':')
+    owner = importlib.import_module(mod)
+    parts = qual.split('.')
+    for p in parts[:-1]:
+        owner = getattr(owner, p)
+    attr = parts[-1]
+    orig = owner.__dict__[attr] if hasattr(owner, '__dict__') and attr in owner.__dict__ else getattr(owner, attr)
+    real = getattr(owner, attr)
+    calls = st.stub_calls.setdefault(sname, [])
+    rnd_stub = random.Random(len(json.dumps(inputs_json or {})))
+
+    def wrapper(*a, **k):
+        # opaque stub, as in the symbolic run: only the identity of the result is known
+        n = len(calls)
+        if ret is None:
+            res = StubToken(sname, n)
+        else:
+            key = f'stub:{sname}:{n}'
+            j = (inputs_json or {}).get(key)
+            res = decode(j) if j is not None else decode(rand_input(ret, rnd_stub))
+        rec = {'args': list(a), 'kwargs': dict(k), 'result': res}
+        calls.append(rec)
+        return rec['result']
+    setattr(owner, attr, wrapper)
+    return owner, attr, orig
+
+
 def run_contract(spec, inputs_json, only=None):
     import pyvc_rt
     st = pyvc_rt._State()
     pyvc_rt.ST = st
     st.only = only
-    vals = {k: decode(v) for k, v in inputs_json.items()}
-    args = [vals[p] for p in spec.args if p not in spec.kwonly]
+    vals = {k: decode(v) for k, v in inputs_json.items() if not k.startswith('stub:')}
+    ghost = spec.opts.get('ghost', [])
+    args = [vals[p] for p in spec.args if p not in spec.kwonly and p not in ghost]
     kwargs = {p: vals[p] for p in spec.kwonly}
-    allargs = args + [kwargs[k] for k in spec.kwonly]
+    byname = {p: vals[p] for p in spec.args}
     out = {'contract': spec.name, 'pre_ok': True, 'exception': None, 'clauses': [], 'rng_deviated': False}
     if spec.kind == 'lemma':
         st.phase = 'post'
         try:
-            spec.fn(*allargs)
+            spec.fn(**byname)
         except Exception as e:
             out['contract_error'] = f'{type(e).__name__}: {e}'
         out['clauses'] = st.clauses
         return out
     st.phase = 'pre'
     try:
-        spec.fn(*allargs)
+        spec.fn(**byname)
     except Exception as e:
         out['pre_ok'] = False
         out['contract_error'] = f'pre: {type(e).__name__}: {e}'
@@ -352,15 +421,24 @@ def run_contract(spec, inputs_json, only=None):
         return out
     target = resolve(spec.target)
     st.phase = 'body'
+    patches = []
+    stubs = spec.opts.get('stubs', [])
+    if isinstance(stubs, (list, tuple)):
+        stubs = {s_: None for s_ in stubs}
+    for sname, ret in stubs.items():
+        patches.append(install_stub(st, sname, ret, inputs_json))
     try:
         st.result = target(*args, **kwargs)
     except Exception as e:
         st.exc = e
         out['exception'] = f'{type(e).__name__}: {e}'
+    finally:
+        for owner, attr, orig in patches:
+            setattr(owner, attr, orig)
     st.phase = 'post'
     st.old_i = 0
     try:
-        spec.fn(*allargs)
+        spec.fn(**byname)
     except Exception as e:
         out['contract_error'] = f'post: {type(e).__name__}: {e}\n{traceback.format_exc()}'
     out['clauses'] = st.clauses
